@@ -68,3 +68,10 @@ Proof.
     assert (Hin : In u (filter (fun u => negb (forallb trim_invariant (labels u))) (q_units q))) by (apply filter_In; split; [exact Hu|now rewrite E]).
     destruct (filter _ (q_units q)); [exact Hin|discriminate].
 Qed.
+
+(* ---- the source the parsing model transcribes: from_str of the quantity! macro (splitn(2, ' '), NoSeparator, the number, trim,
+   abbreviation | singular | plural of every unit in declaration order, UnknownUnit); Gen/BodySrc.v is regenerated on every run ---- *)
+From Coq Require Import String.
+From UomV Require Import Gen.BodySrc Spec.BodyTie.
+Theorem c12_from_str_source_is_what_the_model_transcribes : body_pinned "from_str"%string = true.
+Proof. vm_compute. reflexivity. Qed.
